@@ -54,6 +54,7 @@ type ChildRes struct {
 	// miss4.go loadTie (C07_IDXREPORT): what BlockDB.LoadBlockIndex computed at the first open - the append position of
 	// blockchain.new and, per block of the index, "<hash>:<ipos>:<data file>" (lib/chain/verif_export_c07.go)
 	IdxPos  int64    `json:"idxpos,omitempty"`
+	IdxHnd  int64    `json:"idxhnd,omitempty"` // file offset of the handle blockchain.new is appended through, right after the open
 	IdxRecs []string `json:"idxrecs,omitempty"`
 }
 
@@ -222,6 +223,7 @@ func childMain(args []string) {
 	res.UndoForeign, res.UndoMissing = undoLook(k.Ch, dir, 8)
 	if os.Getenv("C07_IDXREPORT") != "" {
 		res.IdxPos, _, _, _, _ = k.Ch.Blocks.VerifPositions()
+		res.IdxHnd = k.Ch.Blocks.VerifIndexHandlePos()
 		for _, rec := range k.Ch.Blocks.VerifIndexRecords() {
 			res.IdxRecs = append(res.IdxRecs, fmt.Sprintf("%s:%d:%d", hex.EncodeToString(rec.Idx[:]), rec.Ipos, rec.DatFile))
 		}
